@@ -424,7 +424,10 @@ def gen_msg(rnd, env, d, depth=0, canon=False):
                 slots.append(('S', 0, gen_cell(rnd, env, f, depth, canon=canon)))
         elif f.label == 'OPT':
             if absent or (f.type == 'MESSAGE' and depth >= 3):
-                slots.append(('S', 0, default_cell(f)))
+                if not canon and f.type == 'STRING' and f.default is not None and rnd.random() < 0.3:
+                    slots.append(('S', 0, ('T', 'N')))       # the caller cleared the pointer: absent, like the default pointer
+                else:
+                    slots.append(('S', 0, default_cell(f)))
             else:
                 has = 1 if f.quant == 'H' else 0
                 slots.append(('S', has, gen_cell(rnd, env, f, depth, canon=canon)))
